@@ -154,6 +154,18 @@ func vfC08Draw(t *rapid.T) (c *vfC08Conf) {
 		cl.IgnoreLog = rapid.Bool().Draw(t, "client_"+k+"_ignorelog")
 		cl.IgnoreStats = rapid.Bool().Draw(t, "client_"+k+"_ignorestats")
 		c.Clients = append(c.Clients, cl)
+		if k == "cidr" && rapid.Bool().Draw(t, "client_cidr_has_wider") {
+			// another client on a network that contains the first one's: the
+			// most specific network owns an address
+			wide := &vfC08Client{Name: "client-cidr-wide", IDKind: "cidr_wide"}
+			wide.Addr = netip.MustParseAddr("198.51.7.7")
+			if cl.Addr.Is6() {
+				wide.Addr = netip.MustParseAddr("2001:db8:c1d:5::1")
+			}
+			wide.IgnoreLog = rapid.Bool().Draw(t, "client_cidr_wide_ignorelog")
+			wide.IgnoreStats = rapid.Bool().Draw(t, "client_cidr_wide_ignorestats")
+			c.Clients = append(c.Clients, wide)
+		}
 	}
 
 	return c
@@ -259,6 +271,13 @@ func vfDrawC08World(t *rapid.T) (r *vfC08Run) {
 			}
 			pref, _ := cl.Addr.Prefix(bits)
 			p.Subnets = []netip.Prefix{pref}
+		case "cidr_wide":
+			bits := 16
+			if cl.Addr.Is6() {
+				bits = 48
+			}
+			pref, _ := cl.Addr.Prefix(bits)
+			p.Subnets = []netip.Prefix{pref}
 		case "mac":
 			mac := net.HardwareAddr{0x02, 0, 0, 0, 0, 0x40}
 			p.MACs = []net.HardwareAddr{mac}
@@ -358,6 +377,8 @@ type vfC08Q struct {
 	WantCount  bool
 	Ambiguous  bool
 	Class      string
+	// Owner is the persistent client the query belongs to, if any.
+	Owner *vfC08Client
 }
 
 func (r *vfC08Run) runQueries(t *rapid.T) {
@@ -395,9 +416,18 @@ func (r *vfC08Run) runQueries(t *rapid.T) {
 				q.Proto = rapid.SampledFrom([]proxy.Proto{proxy.ProtoTLS, proxy.ProtoQUIC, proxy.ProtoHTTPS}).Draw(t, label+"_proto")
 			}
 			q.Class = "client:" + cl.IDKind
+			q.Owner = cl
 		} else {
 			q.Addr = netip.MustParseAddr(rapid.SampledFrom([]string{"198.18.5.6", "198.18.77.200", "2001:db8:aaaa:bbbb:cccc:dddd:eeee:ffff", "192.0.2.78"}).Draw(t, label+"_addr"))
 			q.Class = "anon"
+		}
+
+		if q.ClientID == "" && rapid.IntRange(0, 3).Draw(t, label+"_shared_id") == 0 {
+			// an encrypted request with a ClientID no client is registered
+			// for (one DoH URL on several devices): the address still decides
+			q.ClientID = "shared-doh"
+			q.Proto = rapid.SampledFrom([]proxy.Proto{proxy.ProtoTLS, proxy.ProtoHTTPS}).Draw(t, label+"_shared_proto")
+			q.Class += "+unregistered_clientid"
 		}
 
 		if q.Addr.Is4() && rapid.IntRange(0, 3).Draw(t, label+"_mapped") == 0 {
@@ -461,6 +491,42 @@ func (r *vfC08Run) runQueries(t *rapid.T) {
 	}
 	r.checkStatsDB(t, qs)
 
+	// A client is marked to be ignored afterwards: the log API must stop
+	// returning what it recorded for that client, and only that.
+	var later []*vfC08Client
+	for _, cl := range c.Clients {
+		if !cl.IgnoreLog {
+			later = append(later, cl)
+		}
+	}
+	// (With anonymisation on the stored address no longer identifies the
+	// client, so nothing can be demanded of it.)
+	if len(later) > 0 && !c.Anonymize && rapid.Bool().Draw(t, "ignore_a_client_afterwards") {
+		cl := rapid.SampledFrom(later).Draw(t, "client_ignored_afterwards")
+		prev, ok := r.w.storage.FindByName(cl.Name)
+		if !ok {
+			t.Fatalf("VERIF-INCONCLUSIVE client %q not in the registry", cl.Name)
+		}
+		upd := prev.ShallowClone()
+		upd.IgnoreQueryLog = true
+		if uerr := r.w.storage.Update(context.Background(), cl.Name, upd); uerr != nil {
+			t.Fatalf("VERIF-INCONCLUSIVE updating client %q: %v", cl.Name, uerr)
+		}
+		cl.IgnoreLog = true
+		hidden := 0
+		for _, q := range qs {
+			if q.Owner == cl && q.WantLogged {
+				q.WantLogged = false
+				hidden++
+			}
+		}
+		vfC08.Class("client_ignored_afterwards")
+		if hidden > 0 {
+			vfC08.Class("client_ignored_afterwards:hides_recorded_entries")
+		}
+		r.checkLog(t, qs, "file_after_ignoring_"+cl.IDKind)
+	}
+
 	if vfC08.WantSample(fmt.Sprintf("anonymize=%t", c.Anonymize)) {
 		var sq []string
 		for _, q := range qs {
@@ -470,8 +536,43 @@ func (r *vfC08Run) runQueries(t *rapid.T) {
 	}
 }
 
+// maskedHidden reports whether, with anonymisation on, the stored (masked)
+// address of q falls under an identifier of a client that is currently
+// ignored for the log (or the statistics): the APIs look the stored address up
+// when they are read and may then leave the entry out, which the statement
+// allows (it promises what is absent, not what is present).
+func (r *vfC08Run) maskedHidden(q *vfC08Q, logged bool) (hidden bool) {
+	if !r.conf.Anonymize || q.ClientID == "cid-client" {
+		// a registered ClientID identifies its client whatever the address
+		return false
+	}
+	m := vfMask(q.Addr, true)
+	for _, cl := range r.conf.Clients {
+		if (logged && !cl.IgnoreLog) || (!logged && !cl.IgnoreStats) {
+			continue
+		}
+		switch cl.IDKind {
+		case "ip":
+			if cl.Addr == m {
+				return true
+			}
+		case "cidr", "cidr_wide":
+			bits := map[string][2]int{"cidr": {25, 64}, "cidr_wide": {16, 48}}[cl.IDKind]
+			b := bits[0]
+			if cl.Addr.Is6() {
+				b = bits[1]
+			}
+			if pref, err := cl.Addr.Prefix(b); err == nil && pref.Contains(m) {
+				return true
+			}
+		}
+	}
+
+	return false
+}
+
 // expectedLog builds the multiset of (name, stored client) the log must hold.
-func (r *vfC08Run) expected(qs []*vfC08Q, logged bool) (exp map[string]int, amb map[string]bool) {
+func (r *vfC08Run) expected(qs []*vfC08Q, logged, api bool) (exp map[string]int, amb map[string]bool) {
 	exp = map[string]int{}
 	amb = map[string]bool{}
 	if logged {
@@ -483,7 +584,7 @@ func (r *vfC08Run) expected(qs []*vfC08Q, logged bool) (exp map[string]int, amb 
 			name = "."
 		}
 		k := name + " " + vfMask(q.Addr, r.conf.Anonymize).String()
-		if q.Ambiguous {
+		if q.Ambiguous || (api && r.maskedHidden(q, logged)) {
 			amb[k] = true
 
 			continue
@@ -536,7 +637,7 @@ func (r *vfC08Run) checkLog(t *rapid.T, qs []*vfC08Q, stage string) {
 		}
 		got[name+" "+ip.String()]++
 	}
-	exp, amb := r.expected(qs, true)
+	exp, amb := r.expected(qs, true, true)
 	r.compare(t, "querylog API ("+stage+")", got, exp, amb)
 	vfC08.Class("checked:log_" + stage)
 }
@@ -613,7 +714,7 @@ func (r *vfC08Run) checkFileBytes(t *rapid.T, qs []*vfC08Q) {
 			}
 		}
 	}
-	exp, amb := r.expected(qs, true)
+	exp, amb := r.expected(qs, true, false)
 	r.compare(t, "querylog.json", got, exp, amb)
 	vfC08.Class("checked:file_bytes")
 }
@@ -638,6 +739,7 @@ func (r *vfC08Run) checkStats(t *rapid.T, qs []*vfC08Q) {
 	wantDomains := map[string]int{}
 	wantClients := map[string]int{}
 	ambDomains := map[string]bool{}
+	ambClients := map[string]bool{}
 	for _, q := range qs {
 		name := strings.ToLower(strings.TrimSuffix(q.Name, "."))
 		if q.Name == "." {
@@ -660,6 +762,8 @@ func (r *vfC08Run) checkStats(t *rapid.T, qs []*vfC08Q) {
 		wantDomains[name]++
 		if q.ClientID != "" {
 			wantClients[q.ClientID]++
+		} else if r.maskedHidden(q, false) {
+			ambClients[vfMask(q.Addr, true).String()] = true
 		} else {
 			wantClients[vfMask(q.Addr, r.conf.Anonymize).String()]++
 		}
@@ -705,11 +809,17 @@ func (r *vfC08Run) checkStats(t *rapid.T, qs []*vfC08Q) {
 			}
 		}
 		for k, v := range wantClients {
+			if ambClients[k] {
+				continue
+			}
 			if gotClients[k] != v {
-				t.Fatalf("stats: client %q counted %d times, want %d\nconfig: %v\ntop_clients: %v", k, gotClients[k], v, r.conf.describe(), gotClients)
+				t.Fatalf("stats: client %q counted %d times, want %d\nconfig: %v\ntop_clients: %v\nstats document: %s", k, gotClients[k], v, r.conf.describe(), gotClients, rec.Body.String())
 			}
 		}
 		for k, v := range gotClients {
+			if ambClients[k] {
+				continue
+			}
 			if wantClients[k] != v {
 				t.Fatalf("stats: client %q counted %d times, want %d\nconfig: %v", k, v, wantClients[k], r.conf.describe())
 			}
